@@ -37,9 +37,9 @@ import (
 // ---------------------------------------------------------------- descriptors
 
 type c08Desc struct {
-	Seed      int64  `json:"seed"`
-	Kind      string `json:"kind"` // blockstore | storage | deferred
-	Histories int    `json:"histories"`
+	Seed      int64   `json:"seed"`
+	Kind      string  `json:"kind"` // blockstore | storage | deferred
+	Histories int     `json:"histories"`
 	Cfg       lab.Cfg `json:"cfg"`
 }
 
@@ -66,7 +66,7 @@ type c08Result struct {
 
 type c08Op struct {
 	Client int    `json:"c"`
-	Kind   string `json:"k"`  // put putmany has get getsize list roots finalize
+	Kind   string `json:"k"`   // put putmany has get getsize list roots finalize
 	Key    int    `json:"key"` // block index (-1 n/a)
 	Key2   int    `json:"key2,omitempty"`
 	Call   int64  `json:"call"`
@@ -96,9 +96,9 @@ func isClosedErr(err error) bool {
 }
 
 type c08BS struct {
-	bs   *blockstore.ReadWrite
-	blks []refcar.Block
-	path string
+	bs    *blockstore.ReadWrite
+	blks  []refcar.Block
+	path  string
 	keyOf map[string]int
 }
 
@@ -178,9 +178,9 @@ func (s *c08ST) getSize(i int) (int, error) {
 	return len(b), err
 }
 func (s *c08ST) list(context.Context, bool, *int64) ([]int, error) { return nil, errors.New("n/a") }
-func (s *c08ST) roots() error                                    { _ = s.sc.Roots(); return nil }
-func (s *c08ST) finalize() error                                 { return s.sc.Finalize() }
-func (s *c08ST) fileBytes() []byte                               { return s.mf.Bytes() }
+func (s *c08ST) roots() error                                      { _ = s.sc.Roots(); return nil }
+func (s *c08ST) finalize() error                                   { return s.sc.Finalize() }
+func (s *c08ST) fileBytes() []byte                                 { return s.mf.Bytes() }
 
 type c08DW struct {
 	dw   *deferred.DeferredCarWriter
@@ -204,6 +204,9 @@ func (s *c08DW) list(context.Context, bool, *int64) ([]int, error) { return nil,
 func (s *c08DW) roots() error                                      { return nil }
 func (s *c08DW) finalize() error                                   { return s.dw.Close() }
 func (s *c08DW) fileBytes() []byte                                 { return s.mf.Bytes() }
+
+// c08Progress counts completed client operations (bounded-progress monitor).
+var c08Progress int64
 
 func c08Child(args []string) int {
 	if len(args) < 2 {
@@ -237,10 +240,29 @@ func c08Child(args []string) int {
 			defer close(done)
 			ops, viols, incon = c08History(d, hseed, dir, res)
 		}()
-		select {
-		case <-done:
-		case <-time.After(45 * time.Second):
-			// bounded-progress monitor: the history is stuck; keep the goroutine dump for classification
+		// bounded-progress monitor on a logical quantity: completed operations. A history is declared
+		// stuck only when that counter did not move during two consecutive 30 s windows.
+		stuck := false
+		last, idle := atomic.LoadInt64(&c08Progress), 0
+	wait:
+		for {
+			select {
+			case <-done:
+				break wait
+			case <-time.After(30 * time.Second):
+				cur := atomic.LoadInt64(&c08Progress)
+				if cur == last {
+					idle++
+				} else {
+					idle, last = 0, cur
+				}
+				if idle >= 2 {
+					stuck = true
+					break wait
+				}
+			}
+		}
+		if stuck {
 			buf := make([]byte, 1<<20)
 			n := runtime.Stack(buf, true)
 			res.Stuck = string(buf[:n])
@@ -446,6 +468,7 @@ func c08History(d c08Desc, seed int64, dir string, res *c08Result) ([]c08Op, []c
 					op.Out = "ok"
 				}
 				op.Ret = atomic.AddInt64(&clock, 1)
+				atomic.AddInt64(&c08Progress, 1)
 				if err != nil {
 					if isClosedErr(err) {
 						op.Out = "closed"
@@ -700,8 +723,6 @@ func c08ParseRaceLogs(dir string) (pairs map[string]string, blocksN int) {
 	return
 }
 
-
-
 func runC08(t *mon.T, raw json.RawMessage) {
 	var d c08Desc
 	if err := json.Unmarshal(raw, &d); err != nil {
@@ -750,7 +771,7 @@ func runC08(t *mon.T, raw json.RawMessage) {
 		// bounded progress: classify the dump
 		blocked := strings.Count(res.Stuck, "sync.(*RWMutex)") + strings.Count(res.Stuck, "sync.(*Mutex).Lock")
 		if blocked > 0 && strings.Contains(res.Stuck, "github.com/ipld/go-car") {
-			t.ViolateD("deadlock/"+d.Kind, mon.Trunc(res.Stuck, 12000), "a history made no progress for 45 s with %d goroutines parked on go-car mutexes", blocked)
+			t.ViolateD("deadlock/"+d.Kind, mon.Trunc(res.Stuck, 12000), "a history made no progress (no operation completed) during two consecutive 30 s windows with %d goroutines parked on go-car mutexes", blocked)
 		} else {
 			t.Inconclusive("history stuck without goroutines parked on go-car mutexes")
 		}
@@ -794,13 +815,13 @@ func genC08(g *mon.G) {
 
 func init() {
 	Register(&mon.Check{
-		ID:      "C08",
-		Level:   "exploration",
-		Workers: 8,
-		Rule: "cases = batches of short concurrent histories executed in a child built with -race (GORACE halt_on_error=0, logs parsed): G ∈ {2,4,8,16} goroutines x 3-10 ops each on one shared blockstore.ReadWrite / storage.StorageCar / DeferredCarWriter over 8-32 keys (one content-addressed block per key), op mix Put, PutMany, Has, Get, GetSize, AllKeysChan (fast consumers, slow consumers that call Has/Get for every listed key before taking the next one, cancelled consumers), Roots and one racing Finalize; Gosched injected between the writes of a section via the verif write hook / memfile hook. Monitors: (1) every race-detector report, normalised to the innermost go-car frame pair; (2) call/return history on one atomic logical clock, per-key porcupine check against the set model {absent→present}, listing expanded to per-key observations; interval rules for closed-errors vs the terminal op; (3) bounded progress: a history stuck for 45 s with goroutines parked on go-car mutexes is a deadlock, otherwise inconclusive; (4) reference decode of the finalized file: every acknowledged block exactly once, nothing unacknowledged, matching index. quick = 48 batches x 16 histories, thorough = 400 x 32",
+		ID:          "C08",
+		Level:       "exploration",
+		Workers:     8,
+		Rule:        "cases = batches of short concurrent histories executed in a child built with -race (GORACE halt_on_error=0, logs parsed): G ∈ {2,4,8,16} goroutines x 3-10 ops each on one shared blockstore.ReadWrite / storage.StorageCar / DeferredCarWriter over 8-32 keys (one content-addressed block per key), op mix Put, PutMany, Has, Get, GetSize, AllKeysChan (fast consumers, slow consumers that call Has/Get for every listed key before taking the next one, cancelled consumers), Roots and one racing Finalize; Gosched injected between the writes of a section via the verif write hook / memfile hook. Monitors: (1) every race-detector report, normalised to the innermost go-car frame pair; (2) call/return history on one atomic logical clock, per-key porcupine check against the set model {absent→present}, listing expanded to per-key observations; interval rules for closed-errors vs the terminal op; (3) bounded progress: a history in which no operation completes during two consecutive 30 s windows with goroutines parked on go-car mutexes is a deadlock, otherwise inconclusive; (4) reference decode of the finalized file: every acknowledged block exactly once, nothing unacknowledged, matching index. quick = 48 batches x 16 histories, thorough = 400 x 32",
 		Assumptions: []string{"the race detector reports a racy pair only when both accesses execute in one run; linearizability is judged on the interleavings the scheduler and the injected yields produced (counters: distinct-interleaving-signatures, overlap:*)", "DeferredCarWriter.OnPut is registration, done before the goroutines start"},
-		Gen:   genC08,
-		Run:   runC08,
+		Gen:         genC08,
+		Run:         runC08,
 		MinCover: map[string]int{"histories": 500, "ops": 10000, "keys-checked-by-porcupine": 1000, "distinct-interleaving-signatures": 100,
 			"overlap:list||put": 5, "overlap:get||put": 20, "overlap:has||put": 20, "overlap:put||put": 20, "overlap:finalize||get": 1, "overlap:finalize||put": 3, "kind:blockstore": 2, "kind:storage": 2, "kind:deferred": 2},
 	})
